@@ -40,7 +40,8 @@ ASSUMPTIONS = [
 ESSENTIAL_LABELS = {'all': ['problem:drop', 'problem:column',
                             'problem:periodic', 'bitwise_group', 'repeat',
                             'openmp', 'cache', 'reorder', 'sort_gids',
-                            'variable_h']}
+                            'variable_h', 'h_ratio_2',
+                            'all_nnps_sweep']}
 SHARD_TIMEOUT = {'quick': 1700, 'thorough': 10 * 3600}
 NNPS = ['ll', 'box', 'sh', 'esh', 'ci', 'sfc', 'tree', 'comp_tree',
         'strat_hash', 'strat_sfc']
@@ -62,7 +63,20 @@ def config_strategy(draw, force_sorted_omp=False, reorder=None,
 
 
 @st.composite
-def case_strategy(draw, problem, nfree, exclude=()):
+def case_strategy(draw, problem, nfree, exclude=(), sweep=False):
+    if sweep:
+        # every neighbour algorithm on one multi-resolution input
+        cfgs = [dict(nnps=n, cache=draw(st.booleans()), openmp=False,
+                     threads=1, reorder=0, sort_gids=draw(st.booleans()))
+                for n in NNPS if n not in exclude and n != 'll']
+        return dict(problem=problem,
+                    phys=dict(n=draw(st.sampled_from([14, 24, 30])),
+                              varh=True,
+                              hamp=draw(st.sampled_from([0.5, 0.75])),
+                              dt=1e-4, nsteps=draw(st.sampled_from([6, 10])),
+                              vals=[draw(st.integers(-8, 8)) / 16.0
+                                    for _ in range(16)]),
+                    configs=cfgs, repeat=draw(st.integers(0, 8)))
     reorder = draw(st.sampled_from([0, 1, 3]))
     cfgs = [draw(config_strategy(True, reorder, exclude)) for _ in range(2)]
     # the tree algorithms build and prune with per-node data in parallel:
@@ -74,6 +88,7 @@ def case_strategy(draw, problem, nfree, exclude=()):
     return dict(problem=problem,
                 phys=dict(n=draw(st.sampled_from([10, 14, 24, 32])),
                           varh=draw(st.sampled_from([True, True, False])),
+                          hamp=draw(st.sampled_from([0.15, 0.5])),
                           dt=draw(st.sampled_from([1e-4, 2e-4])),
                           nsteps=draw(st.sampled_from([8, 12, 20])),
                           vals=[draw(st.integers(-8, 8)) / 16.0
@@ -162,6 +177,10 @@ def check(case, workdir):
     labels = ['problem:' + case['problem']]
     if case['phys'].get('varh') and case['problem'] != 'periodic':
         labels.append('variable_h')
+        if case['phys'].get('hamp', 0) >= 0.5:
+            labels.append('h_ratio_2')
+    if len(set(c['nnps'] for c in case['configs'])) >= 7:
+        labels.append('all_nnps_sweep')
     fails = []
     nontriv = []
     problem, phys = case['problem'], case['phys']
@@ -269,11 +288,20 @@ def plan(ctx):
             shards.append(dict(name='cfg-%02d-%s' % (i, probs[i % 3]),
                                problem=probs[i % 3], ncases=1, nfree=4,
                                exclude=excl.get(probs[i % 3], [])))
+        for pr in ('drop', 'column'):
+            shards.append(dict(name='sweep-%s' % pr, problem=pr, ncases=1,
+                               nfree=0, sweep=True,
+                               exclude=excl.get(pr, [])))
     else:
         for i in range(48):
             shards.append(dict(name='cfg-%02d-%s' % (i, probs[i % 3]),
                                problem=probs[i % 3], ncases=12, nfree=8,
                                exclude=excl.get(probs[i % 3], [])))
+        for i in range(8):
+            pr = ('drop', 'column')[i % 2]
+            shards.append(dict(name='sweep-%02d-%s' % (i, pr), problem=pr,
+                               ncases=6, nfree=0, sweep=True,
+                               exclude=excl.get(pr, [])))
     return shards
 
 
@@ -302,7 +330,8 @@ def run_shard(spec, ctx):
     if spec.get('exclude'):
         stats.label('excluded:known:' + ','.join(spec['exclude']))
     search(case_strategy(spec['problem'], spec['nfree'],
-                         tuple(spec.get('exclude', []))), execute,
+                         tuple(spec.get('exclude', [])),
+                         bool(spec.get('sweep'))), execute,
            derive_seed(ctx.seed, 'C05', spec['name']), spec['ncases'] + 1,
            stats, shrink=False)
     return stats.result()
